@@ -133,6 +133,8 @@ func (in *Interp) buildAny(s *GenSpec) drawFn {
 		return box(rapid.MapOfN(rapid.IntRange(0, s.A), in.buildInt(s.Sub), s.B, s.B+2))
 	case "slice2":
 		return box(rapid.SliceOf(in.buildSliceInt(s.Sub)))
+	case "makemap":
+		return box(rapid.Make[map[bool]int]()) // reflection-based generator: duplicate keys are rejected attempts
 	case "mapof":
 		return box(rapid.MapOf(rapid.IntRange(0, s.A), in.buildInt(s.Sub)))
 	case "mapbool":
